@@ -972,6 +972,17 @@ def classify(d, val, listed):
             else:
                 name = 'other(' + '|'.join(rest) + ')'
         return (discr_label(inner), name)
+    fcount = ci_field_load(d)
+    if fcount is None and d[0] == 'bin' and d[1] in ('Add', 'Sub') and d[3][0] == 'const':
+        fcount = ci_field_load(d[2])
+    if fcount in ('recv_count', 'send_count'):
+        # `match count { 0 => .., _ => .. }`
+        short = 'rc0' if fcount == 'recv_count' else 'sc0'
+        if val == '0':
+            return (short, 'T')
+        if val is None and listed == ['0']:
+            return (short, 'F')
+        return ('unrec:count-match', 'T')
     r = classify_bool_expr(d)
     if r is None:
         return (None, None)
